@@ -49,9 +49,15 @@ class _WarnTap(logging.Handler):
         sb = CURRENT
         if sb is None or not sb.active:
             return
+        # any record of evo.tools.user whose first argument is a path inside
+        # the sandbox announces the question that follows (today:
+        # "<path> exists, overwrite?")
         try:
-            if "exists, overwrite" in str(record.msg) and record.args:
-                sb.events.append(("warn", sb.rel(record.args[0])))
+            args = record.args
+            if isinstance(args, tuple) and args:
+                rel = sb.rel(args[0])
+                if rel is not None and rel != ".":
+                    sb.events.append(("warn", rel))
         except Exception:  # noqa
             pass
 
